@@ -2,7 +2,7 @@
 //!
 //! Real path: `Filter::from_ldap_ro` / `Filter::from_scim_ro` (identity: idm_admin, element budget
 //! 32) -> `validate` -> `into_ignore_hidden` -> `QueryServerReadTransaction::search` on a migrated
-//! in-memory server holding the builtin entries plus 14 extensibleobject entries (one recycled).
+//! in-memory server holding the builtin entries plus 17 extensibleobject entries (one recycled).
 //! This is what `SearchEvent::new_ext_impersonate_uuid` (LDAP) and `scim_search_filter_ext` (SCIM)
 //! do, minus access control; one stratum wraps the filter like `LdapServer::do_search` does.
 //!
@@ -11,7 +11,9 @@
 //!                         real `FilterComp` equals the model's translation printed the same way
 //!                         (which also carries the model's `fcValidate` verdict against `validate`)
 //!   mm   (impl-vs-model)  the real resolved filter's `entry_match_no_index` on every entry of the
-//!                         database = the model's `FC.matches` of its own translation
+//!                         database = the model's `FC.matches` of its own translation — twice: resolved
+//!                         without index metadata (`fast_optimise`) and WITH the backend's index metadata
+//!                         (the full `optimise()`, which is what `search` runs): `mm-optimised`
 //!   sem  (impl-vs-model)  the Lean reference semantics (`ldapSem` / `scimSem`, the one the theorems
 //!                         are about) = the oracle's evaluator on every entry
 //!   ORACLE (impl-vs-oracle) a filter is rejected, or the search returns exactly the visible entries
@@ -26,6 +28,7 @@
 use hlib::*;
 use kanidm_proto::attribute::SubAttribute;
 use kanidm_proto::scim_v1::{AttrPath, ScimComplexFilter, ScimFilter};
+use kanidmd_lib::be::BackendTransaction;
 use kanidmd_lib::entry::{Entry, EntryInit, EntryNew, EntrySealedCommitted};
 use kanidmd_lib::event::SearchEvent;
 use kanidmd_lib::filter::{Filter, FilterInvalid};
@@ -818,6 +821,11 @@ fn population() -> Vec<Entry<EntryInit, EntryNew>> {
         mk_entry(13, "abcd", &["abcd@abcd.cd"], Some(2400), Some(2), Some("abcd"), Some("abcd")),
         // recycled below: must never be returned
         mk_entry(14, "abz", &["abz@x.com"], Some(2600), Some(5), Some("ab"), Some("ab")),
+        // begins AND ends with `ab` / only begins / only ends (name, description, displayname, mail): tell a
+        // starts-with term from an ends-with term with the same value, and `(a=ab*ab)` from `(a=ab*)` / `(a=*ab)`
+        mk_entry(15, "abcab", &["abc@x.ab"], Some(2601), None, Some("abcab"), Some("Abcab")),
+        mk_entry(16, "abcde", &["abcde@x.com"], Some(2602), Some(4), Some("abcde"), Some("abcde")),
+        mk_entry(17, "xxab", &["xx@x.ab"], None, Some(4), Some("xxab"), Some("xxAB")),
     ]
 }
 
@@ -857,7 +865,7 @@ fn l_leaf(r: &mut Rng) -> LT {
         11 => LT::Eq(pick_s(r, &["mail", "email", "emailprimary"]), pick_s(r, &["abc@x.com", "ABC@x.com", "ab@ab.ab", "ab@y.org", "none@x.com"])),
         12 => LT::Eq(pick_s(r, &["description", "displayname", "gecos"]), pick_s(r, &["hello", "Hello", "ab", "vp", "AB", "abcd"])),
         13 => LT::Eq(pick_s(r, &["uuid", "entryuuid", "entryUUID"]), {
-            let n = r.range(1, 16);
+            let n = r.range(1, 19);
             if r.chance(1, 5) {
                 "zz-no-such-thing".to_string()
             } else {
@@ -882,7 +890,105 @@ fn l_leaf(r: &mut Rng) -> LT {
     }
 }
 
+
+/// one term of a *same-value family*: the five assertion kinds over one attribute and one value
+fn l_term(op: &str, a: &str, v: &str) -> LT {
+    match op {
+        "eq" => LT::Eq(a.into(), v.into()),
+        "sw" => LT::Sub(a.into(), Some(v.into()), vec![], None),
+        "ew" => LT::Sub(a.into(), None, vec![], Some(v.into())),
+        "co" => LT::Sub(a.into(), None, vec![v.into()], None),
+        _ => LT::Pres(a.into()),
+    }
+}
+fn s_term(op: &'static str, a: &str, v: &str) -> ST {
+    if op == "pr" {
+        ST::Cmp("pr", a.into(), false, JV::Other)
+    } else {
+        ST::Cmp(op, a.into(), false, JV::S(v.into()))
+    }
+}
+const FAM_OPS: [&str; 5] = ["eq", "sw", "ew", "co", "pr"];
+/// attribute (LDAP spellings), a needle that some values begin with, some end with, some both
+const FAM_ATTRS: [(&[&str], &str); 5] = [
+    (&["name", "cn", "UID"], "ab"),
+    (&["description"], "ab"),
+    (&["displayname", "gecos"], "ab"),
+    (&["mail", "email"], "ab"),
+    (&["class", "objectClass"], "object"),
+];
+
+/// 2-4 terms (starts-with / ends-with / contains / equality / presence) that mostly share the
+/// attribute and the value: the lists in which a term-level comparison (sort, dedup, dead-term
+/// elimination of the optimiser) could confuse two different assertions
+fn l_family_terms(r: &mut Rng) -> Vec<LT> {
+    let (names, needle) = FAM_ATTRS[r.below(FAM_ATTRS.len() as u64) as usize];
+    let n = r.range(2, 4);
+    let mut v = vec![];
+    for _ in 0..n {
+        let a = if r.chance(1, 8) { pick_s(r, &["name", "description", "mail"]) } else { pick_s(r, names) };
+        let val = if r.chance(1, 8) { pick_s(r, &FRAGS) } else if r.chance(1, 6) { needle.to_uppercase() } else { needle.to_string() };
+        let op = *r.pick(&["sw", "ew", "sw", "ew", "co", "eq", "pr"]);
+        let t = l_term(op, &a, &val);
+        v.push(if r.chance(1, 8) { LT::Not(Box::new(t)) } else { t });
+    }
+    v
+}
+fn l_family(r: &mut Rng) -> LT {
+    let v = l_family_terms(r);
+    let inner = if r.chance(1, 2) { LT::And(v) } else { LT::Or(v) };
+    match r.below(6) {
+        0 => LT::And(vec![leq("class", "extensibleobject"), inner]),
+        1 => LT::Or(vec![leq("name", "vpm"), inner]),
+        2 => LT::And(vec![LT::Pres("class".into()), LT::Not(Box::new(inner))]),
+        _ => inner,
+    }
+}
+/// a substring assertion whose components repeat one fragment (`(a=ab*ab)`, `(a=ab*ab*ab)`, `(a=*ab*ab)` ...)
+fn l_repeat_sub(r: &mut Rng) -> LT {
+    let (names, needle) = FAM_ATTRS[r.below(4) as usize];
+    let a = pick_s(r, names);
+    let f = if r.chance(1, 3) { pick_s(r, &["a", "b", "ab", "abab", "x"]) } else { needle.to_string() };
+    let alt = |r: &mut Rng, f: &str| if r.chance(1, 6) { pick_s(r, &FRAGS) } else { f.to_string() };
+    loop {
+        let ini = if r.chance(2, 3) { Some(alt(r, &f)) } else { None };
+        let fin = if r.chance(2, 3) { Some(alt(r, &f)) } else { None };
+        let any: Vec<String> = (0..*r.pick(&[0u64, 0, 1, 1, 2])).map(|_| alt(r, &f)).collect();
+        if ini.iter().count() + fin.iter().count() + any.len() >= 2 {
+            return LT::Sub(a, ini, any, fin);
+        }
+    }
+}
+fn s_family(r: &mut Rng) -> ST {
+    let (names, needle) = FAM_ATTRS[r.below(FAM_ATTRS.len() as u64) as usize];
+    let base = names[0];
+    let n = r.range(2, 3);
+    let mut v = vec![];
+    for _ in 0..n {
+        let a = if r.chance(1, 8) { pick_s(r, &["name", "description", "displayname"]) } else if r.chance(1, 6) { base.to_uppercase() } else { base.to_string() };
+        let val = if r.chance(1, 8) { pick_s(r, &FRAGS) } else if r.chance(1, 6) { needle.to_uppercase() } else { needle.to_string() };
+        let op = pick_op(r, &["sw", "ew", "sw", "ew", "co", "eq", "pr"]);
+        let t = s_term(op, &a, &val);
+        v.push(if r.chance(1, 8) { ST::Not(Box::new(t)) } else { t });
+    }
+    let and = r.chance(1, 2);
+    let mut it = v.into_iter();
+    let mut acc = it.next().unwrap();
+    for t in it {
+        acc = if and { sand(acc, t) } else { sor(acc, t) };
+    }
+    match r.below(6) {
+        0 => sand(scmp("eq", "class", "extensibleobject"), acc),
+        1 => sor(scmp("eq", "name", "vpm"), acc),
+        2 => sand(ST::Cmp("pr", "class".into(), false, JV::Other), snot(acc)),
+        _ => acc,
+    }
+}
+
 fn l_tree(r: &mut Rng, depth: usize, width: usize) -> LT {
+    if r.chance(1, 14) {
+        return if r.chance(1, 3) { l_repeat_sub(r) } else { l_family(r) };
+    }
     if depth == 0 || r.chance(1, 4) {
         return l_leaf(r);
     }
@@ -913,7 +1019,7 @@ fn s_leaf(r: &mut Rng) -> ST {
         4 | 5 => ST::Cmp(pick_op(r, &["eq", "co", "sw", "ew"]), "class".into(), false, JV::S(pick_s(r, &["extensibleobject", "object", "group", "person", "ect", "Ext", "classtype", "recycled"]))),
         6 | 7 => ST::Cmp(pick_op(r, &["eq", "co", "sw", "ew"]), pick_s(r, &["description", "displayname"]), false, JV::S(pick_s(r, &["hello", "Hello", "He", "ab", "AB", "vp", "x", "abcd"]))),
         8 => ST::Cmp("pr", pick_s(r, &["mail", "gidnumber", "description", "displayname", "class", "spn", "authsession_expiry"]), false, JV::Other),
-        9 => ST::Cmp("eq", "uuid".into(), false, JV::S(if r.chance(1, 5) { "zz-no-such-thing".into() } else { nat_uuid(1000 + r.range(1, 16)).as_hyphenated().to_string() })),
+        9 => ST::Cmp("eq", "uuid".into(), false, JV::S(if r.chance(1, 5) { "zz-no-such-thing".into() } else { nat_uuid(1000 + r.range(1, 19)).as_hyphenated().to_string() })),
         10 => ST::Cmp(
             pick_op(r, &["gt", "lt", "ge", "le"]),
             pick_s(r, &["gidnumber", "authsession_expiry", "name", "class", "description"]),
@@ -933,6 +1039,9 @@ fn s_leaf(r: &mut Rng) -> ST {
     }
 }
 fn s_tree(r: &mut Rng, depth: usize) -> ST {
+    if r.chance(1, 12) {
+        return s_family(r);
+    }
     if depth == 0 || r.chance(1, 4) {
         return s_leaf(r);
     }
@@ -1035,8 +1144,90 @@ fn corpus() -> Vec<(&'static str, T)> {
         ("scim-subattr", T::S(ST::Cmp("eq", "mail".into(), true, JV::S("x".into())))),
         ("scim-complex", T::S(ST::Complex)),
         ("spn-invalid-or", T::L(LT::Or(vec![leq("spn", "garbage"), leq("name", "aba")]))),
+        // a starts-with and an ends-with term over the SAME attribute with the SAME value are different
+        // assertions (seeded change: `FilterResolved::eq` merged Stw/Enw, `optimise()`'s dedup dropped one)
+        ("swew-and", T::L(LT::And(vec![lsub("name", Some("ab"), &[], None), lsub("name", None, &[], Some("ab"))]))),
+        ("swew-or", T::L(LT::Or(vec![lsub("name", Some("ab"), &[], None), lsub("name", None, &[], Some("ab"))]))),
+        ("swew-or-rev", T::L(LT::Or(vec![lsub("cn", None, &[], Some("AB")), lsub("name", Some("ab"), &[], None)]))),
+        ("swew-and-folded", T::L(LT::And(vec![xo(), LT::And(vec![lsub("name", None, &[], Some("ab")), lsub("name", Some("ab"), &[], None)])]))),
+        ("swew-or-wrapped", T::L(do_search_wrap(LT::Or(vec![lsub("name", Some("ab"), &[], None), lsub("name", None, &[], Some("ab"))])))),
+        ("swew-and-not", T::L(LT::And(vec![lsub("name", Some("ab"), &[], None), lnot(lsub("name", None, &[], Some("ab")))]))),
+        ("swew-unindexed", T::L(LT::And(vec![xo(), LT::Or(vec![lsub("description", Some("ab"), &[], None), lsub("description", None, &[], Some("ab"))])]))),
+        ("swco-or", T::L(LT::Or(vec![lsub("name", Some("xab"), &[], None), lsub("name", None, &["xab"], None)]))),
+        ("ewco-and", T::L(LT::And(vec![lsub("name", None, &["ab"], None), lsub("name", None, &[], Some("ab"))]))),
+        ("eqsw-or", T::L(LT::Or(vec![leq("name", "ab"), lsub("name", Some("ab"), &[], None)]))),
+        ("swew-other-attr", T::L(LT::And(vec![lsub("name", Some("ab"), &[], None), lsub("description", None, &[], Some("ab"))]))),
+        ("swew-other-value", T::L(LT::Or(vec![lsub("name", Some("ab"), &[], None), lsub("name", None, &[], Some("ba"))]))),
+        // one substring assertion whose initial and final (and any) are the same string: exact on this
+        // database only where no value overlaps; the others are C41-F1 today and unclassified once a component is lost
+        ("sub-ini-eq-fin", T::L(lsub("name", Some("ab"), &[], Some("ab")))),
+        ("sub-ini-eq-fin-desc", T::L(LT::And(vec![xo(), lsub("description", Some("ab"), &[], Some("ab"))]))),
+        ("sub-ini-any-fin-same", T::L(lsub("name", Some("ab"), &["ab"], Some("ab")))),
+        ("sub-any-eq-fin", T::L(lsub("name", None, &["ab"], Some("ab")))),
+        ("sub-ini-eq-any", T::L(lsub("name", Some("ab"), &["ab"], None))),
+        ("sub-ini-eq-fin-exact", T::L(lsub("name", Some("abc"), &[], Some("cab")))),
+        ("scim-swew-and", T::S(sand(scmp("sw", "name", "ab"), scmp("ew", "name", "ab")))),
+        ("scim-swew-or", T::S(sor(scmp("sw", "name", "ab"), scmp("ew", "name", "ab")))),
+        ("scim-ewsw-or-case", T::S(sor(scmp("ew", "NAME", "AB"), scmp("sw", "name", "ab")))),
+        ("scim-swew-and-folded", T::S(sand(scmp("eq", "class", "extensibleobject"), sand(scmp("ew", "name", "ab"), scmp("sw", "name", "ab"))))),
+        ("scim-swew-and-not", T::S(sand(scmp("sw", "name", "ab"), snot(scmp("ew", "name", "ab"))))),
+        ("scim-swew-desc", T::S(sand(scmp("eq", "class", "extensibleobject"), sor(scmp("sw", "description", "ab"), scmp("ew", "description", "ab"))))),
+        ("scim-swco-or", T::S(sor(scmp("sw", "name", "xab"), scmp("co", "name", "xab")))),
     ]
 }
+
+/// exhaustive small scope over *same-value families*: every ordered pair of the five assertion kinds
+/// (eq sw ew co pr) over one attribute and one value, in AND / OR / AND-NOT / folded-AND / OR-under-AND
+/// lists, LDAP and SCIM; and every LDAP substring assertion whose components are drawn from {needle, other}
+fn same_value_scope(thorough: bool) -> Vec<T> {
+    let mut out = vec![];
+    let attrs: &[(&str, &str, &str)] = if thorough {
+        &[("name", "ab", "b"), ("description", "ab", "b"), ("displayname", "ab", "b"), ("mail", "ab", "b"), ("class", "object", "t")]
+    } else {
+        &[("name", "ab", "b"), ("description", "ab", "b"), ("class", "object", "t")]
+    };
+    let xo = || leq("class", "extensibleobject");
+    for (a, v, other) in attrs {
+        for x in FAM_OPS {
+            for y in FAM_OPS {
+                if x == y && (x == "pr" || !thorough) {
+                    continue;
+                }
+                let (lx, ly) = (l_term(x, a, v), l_term(y, a, v));
+                out.push(T::L(LT::And(vec![lx.clone(), ly.clone()])));
+                out.push(T::L(LT::Or(vec![lx.clone(), ly.clone()])));
+                out.push(T::L(LT::And(vec![lx.clone(), lnot(ly.clone())])));
+                out.push(T::L(LT::And(vec![xo(), LT::And(vec![lx.clone(), ly.clone()])])));
+                out.push(T::L(LT::And(vec![xo(), LT::Or(vec![lx.clone(), ly.clone()])])));
+                if *a != "mail" {
+                    let (sx, sy) = (s_term(x, a, v), s_term(y, a, v));
+                    out.push(T::S(sand(sx.clone(), sy.clone())));
+                    out.push(T::S(sor(sx.clone(), sy.clone())));
+                    out.push(T::S(sand(sx.clone(), snot(sy.clone()))));
+                    out.push(T::S(sand(scmp("eq", "class", "extensibleobject"), sand(sx.clone(), sy.clone()))));
+                    out.push(T::S(sand(scmp("eq", "class", "extensibleobject"), sor(sx, sy))));
+                }
+            }
+        }
+        if *a == "class" {
+            continue;
+        }
+        let comp: [Option<&str>; 3] = [None, Some(v), Some(other)];
+        let anys: [&[&str]; 5] = [&[], &[v], &[v, v], &[other], &[v, other]];
+        for i in comp {
+            for f in comp {
+                for any in anys {
+                    if i.iter().count() + f.iter().count() + any.len() < 2 {
+                        continue;
+                    }
+                    out.push(T::L(lsub(a, i, any, f)));
+                }
+            }
+        }
+    }
+    out
+}
+
 
 /// nesting around the depth limit (12) and element counts around the budget (32)
 fn limit_cases() -> Vec<T> {
@@ -1167,7 +1358,9 @@ enum Outcome {
     /// translated (debug text) but `validate` refused
     Invalid(String, String),
     /// translated, valid, per-entry matches, search answer (sorted uuids) or search error
-    Answer { text: String, mm: Vec<bool>, result: Result<Vec<Uuid>, String> },
+    /// (`mm`: resolved without index metadata = `fast_optimise`; `mmi`: resolved WITH the backend's index
+    /// metadata = the full `optimise()`, what every search runs)
+    Answer { text: String, mm: Vec<bool>, mmi: Vec<bool>, result: Result<Vec<Uuid>, String> },
 }
 
 struct Ctx<'a, 'b> {
@@ -1178,6 +1371,8 @@ struct Ctx<'a, 'b> {
     universe: Vec<Ent>,
     known_recorded: BTreeMap<String, u32>,
     model_fail_recorded: u32,
+    /// (stratum, shrunk witness) of the recorded unclassified oracle failures
+    unclassified_recorded: Vec<(String, String)>,
 }
 
 fn err_name(e: &OperationError) -> String {
@@ -1211,6 +1406,13 @@ impl<'a, 'b> Ctx<'a, 'b> {
             Ok(res) => self.universe.iter().map(|e| e.real.entry_match_no_index(&res)).collect(),
             Err(_) => vec![],
         };
+        let mmi: Vec<bool> = {
+            let idxmeta = self.rd.get_be_txn().get_idxmeta_ref();
+            match v.resolve(&self.ident, Some(idxmeta), None) {
+                Ok(res) => self.universe.iter().map(|e| e.real.entry_match_no_index(&res)).collect(),
+                Err(_) => vec![],
+            }
+        };
         // validate -> into_ignore_hidden -> search as the internal identity (no access control): the
         // steps `scim_search_filter_ext` and `SearchEvent::new_ext_impersonate_uuid` perform
         let spelled = match self.rd.search(&SearchEvent::new_internal(v.into_ignore_hidden())) {
@@ -1242,7 +1444,7 @@ impl<'a, 'b> Ctx<'a, 'b> {
         if spelled != result {
             self.model_fail("pipeline", t, format!("validate -> into_ignore_hidden -> search (what the model composes): {spelled:?}"), format!("production entry point: {result:?}"));
         }
-        Outcome::Answer { text, mm, result }
+        Outcome::Answer { text, mm, mmi, result }
     }
 
     fn expected(&self, t: &T, var: Variant) -> Vec<Uuid> {
@@ -1345,11 +1547,16 @@ impl<'a, 'b> Ctx<'a, 'b> {
         if m_tr != real_tr {
             self.model_fail("tr", t, format!("model: {m_tr}"), format!("real: {real_tr}"));
         }
-        if let Outcome::Answer { mm, .. } = &out {
+        if let Outcome::Answer { mm, mmi, .. } = &out {
             let m_mm = self.drv.ask(&format!("{mm_cmd} | {body}"));
             let real_mm: String = mm.iter().map(|b| if *b { '1' } else { '0' }).collect();
             if m_mm != real_mm {
                 self.model_fail("mm", t, format!("model matches {m_mm}"), format!("real matches {real_mm}"));
+            }
+            // the same through the full optimiser (resolved with index metadata, as `search` does)
+            let real_mmi: String = mmi.iter().map(|b| if *b { '1' } else { '0' }).collect();
+            if m_mm != real_mmi {
+                self.model_fail("mm-optimised", t, format!("model matches {m_mm}"), format!("real matches of the filter resolved with index metadata + optimise() {real_mmi}"));
             }
             // the Lean reference semantics against the oracle's evaluator
             let m_sem = self.drv.ask(&format!("{sem_cmd} | {body}"));
@@ -1422,6 +1629,16 @@ impl<'a, 'b> Ctx<'a, 'b> {
             }
         }
         let (proto, text) = replay_text(&cur);
+        if class == "unclassified" {
+            // every deviation is counted; a shrunk witness is recorded once, at most 4 per stratum (the
+            // remaining cases keep running: the strata are evidence of which generator reaches the defect)
+            self.rep.count(&format!("unclassified:{stratum}"));
+            let per = self.unclassified_recorded.iter().filter(|(s, _)| s == stratum).count();
+            if per >= 4 || self.unclassified_recorded.iter().any(|(_, w)| *w == text) {
+                return;
+            }
+            self.unclassified_recorded.push((stratum.to_string(), text.clone()));
+        }
         self.rep.fail(Failure {
             kind: "impl-vs-oracle".into(),
             class,
@@ -1452,9 +1669,11 @@ fn main() {
         let mut rep = Report::new(
             "proto-filter",
             "LDAP (ldap3_proto::LdapFilter) and SCIM (ScimFilter) trees through the real from_ldap_ro / from_scim_ro -> validate -> \
-             into_ignore_hidden -> search on a migrated in-memory server (builtin entries + 14 extensibleobject entries, one recycled); strata: \
-             regression corpus, depth/element limits, exhaustive depth<=2 over 7/10 LDAP and 5/7 SCIM leaves, random trees depth<=4 (aliases, \
-             mixed case, 1-3 component substrings, all operators, unknown attributes, invalid values), do_search-wrapped trees. \
+             into_ignore_hidden -> search on a migrated in-memory server (builtin entries + 17 extensibleobject entries, one recycled); strata: \
+             regression corpus, depth/element limits, exhaustive depth<=2 over 7/10 LDAP and 5/7 SCIM leaves, exhaustive same-value families \
+             (every ordered pair of eq/sw/ew/co/pr over one attribute and one value in and/or/and-not/folded lists, LDAP and SCIM; every LDAP \
+             substring assertion with components from {needle, other}), random trees depth<=4 (aliases, mixed case, 1-3 component substrings, \
+             repeated-fragment substrings, same-value families, all operators, unknown attributes, invalid values), do_search-wrapped trees. \
              non-trivial = accepted AND the standard answer is a non-empty strict subset of the visible entries; distinct = distinct tree",
         );
         // ---- the model's schema slice must be the real one
@@ -1493,7 +1712,7 @@ fn main() {
         let hidden_n = universe.iter().filter(|e| e.hidden).count();
         rep.note(format!("database: {} entries, {} hidden", universe.len(), hidden_n));
         let drv = Driver::spawn(&args.driver);
-        let mut ctx = Ctx { rep, drv, ident, rd: &mut rd, universe, known_recorded: BTreeMap::new(), model_fail_recorded: 0 };
+        let mut ctx = Ctx { rep, drv, ident, rd: &mut rd, universe, known_recorded: BTreeMap::new(), model_fail_recorded: 0, unclassified_recorded: vec![] };
         let ents_line = format!("ents | {}", ctx.universe.iter().map(|e| model_entry(&e.plain)).collect::<Vec<_>>().join(";"));
         let r = ctx.drv.ask(&ents_line);
         if r != format!("ok {}", ctx.universe.len()) {
@@ -1519,6 +1738,9 @@ fn main() {
             }
             for t in small_scope(args.thorough()) {
                 ctx.run(&t, "small-scope");
+            }
+            for t in same_value_scope(args.thorough()) {
+                ctx.run(&t, "same-value");
             }
             let nrand = args.cases(2500, 120_000).min(900_000);
             for i in 0..nrand {
